@@ -64,3 +64,8 @@ func VerifOptimize(insts []byte, srcMap map[int]parser.Pos) ([]byte, map[int]par
 
 // VerifSymbolTable exposes compiler internals used by structural checks.
 func VerifScopeDepth(c *Compiler) int { return len(c.scopes) }
+
+// C12: the fix-up of decoded constants, and a bool that is not a singleton
+// (what encoding/gob hands back).
+func VerifFixDecoded(o Object, modules *ModuleMap) (Object, error) { return fixDecodedObject(o, modules) }
+func VerifNewBool(v bool) *Bool                                   { return &Bool{value: v} }
